@@ -136,6 +136,26 @@ func verify(path string, ackedN int, ackOffs map[int]string, saves map[string]st
 		}
 		prev = n
 	}
+	// the same log through a batched stream whose consumer keeps the events until the stream ends
+	if bs, err := sqlite.New(path, sqlite.WithStreamBatchSize(3)); err == nil {
+		var kept []*ebu.StoredEvent
+		for e, serr := range bs.ReadStream(ctx, ebu.OffsetOldest) {
+			if serr != nil {
+				bs.Close()
+				return "stream-after-reopen-failed", fmt.Sprintf("batched ReadStream after reopening failed: %v", serr)
+			}
+			kept = append(kept, e)
+		}
+		bs.Close()
+		if len(kept) != len(evs) {
+			return "stream-after-reopen-differs", fmt.Sprintf("Read returns %d events after reopening, a batched stream %d", len(evs), len(kept))
+		}
+		for i, e := range kept {
+			if e.Offset != evs[i].Offset || string(e.Data) != string(evs[i].Data) {
+				return "stream-after-reopen-differs", fmt.Sprintf("event %d of the reopened log read back through a batched stream (events kept by the consumer) has offset %s / data %.40s, Read returns offset %s / data %.40s", i, e.Offset, e.Data, evs[i].Offset, evs[i].Data)
+			}
+		}
+	}
 	for sub, want := range saves {
 		got, err := st.LoadOffset(ctx, sub)
 		if err != nil {
